@@ -187,6 +187,13 @@ fn main() {
                 go(&session::E2b { suites: session::seq_suites(false), starts: vec![0, u64::MAX - 2, u64::MAX - 1], depth: 5, letters: (0..12).collect(), label: "deep".into() }, &cfg, &mut reports, &mut replayed);
             }
         }
+        "C06" => go(&props::c06::C06, &cfg, &mut reports, &mut replayed),
+        "C07" => go(&props::c07::C07, &cfg, &mut reports, &mut replayed),
+        "C08" => go(&props::c08::C08, &cfg, &mut reports, &mut replayed),
+        "C10" => go(&props::c10::C10, &cfg, &mut reports, &mut replayed),
+        "C13" => go(&props::c13::C13, &cfg, &mut reports, &mut replayed),
+        "C14" => go(&props::c14::C14, &cfg, &mut reports, &mut replayed),
+        "C15" => go(&props::c14::C15, &cfg, &mut reports, &mut replayed),
         "C11" => {
             let t = cfg.tier.thorough();
             go(&props::c11::C11, &cfg, &mut reports, &mut replayed);
